@@ -11,126 +11,156 @@ import (
 // constructor (defaults) and then assign the exported period fields, which is how the library's
 // own code and tests configure many indicators. A constructor that caches something derived from
 // its arguments behaves differently on the two routes.
-var alt = map[string]func(c Config) (func([]C) []C, int){
-	"Cci": func(c Config) (func([]C) []C, int) {
+type altInst struct {
+	set     func(c Config)
+	compute func(in []C) []C
+	idle    func() int
+}
+
+var alt = map[string]func() altInst{
+	"Cci": func() altInst {
 		a := trend.NewCci[float64]()
-		a.Period = c.P[0]
-		return func(in []C) []C { return o1(a.Compute(in[0], in[1], in[2])) }, a.IdlePeriod()
+		return altInst{func(c Config) {
+			a.Period = c.P[0]
+		}, func(in []C) []C { return o1(a.Compute(in[0], in[1], in[2])) }, a.IdlePeriod}
 	},
-	"Ema": func(c Config) (func([]C) []C, int) {
+	"Ema": func() altInst {
 		a := trend.NewEma[float64]()
-		a.Period, a.Smoothing = c.P[0], c.F[0]
-		return func(in []C) []C { return o1(a.Compute(in[0])) }, a.IdlePeriod()
+		return altInst{func(c Config) {
+			a.Period, a.Smoothing = c.P[0], c.F[0]
+		}, func(in []C) []C { return o1(a.Compute(in[0])) }, a.IdlePeriod}
 	},
-	"Kama": func(c Config) (func([]C) []C, int) {
+	"Kama": func() altInst {
 		a := trend.NewKama[float64]()
-		a.ErPeriod, a.FastScPeriod, a.SlowScPeriod = c.P[0], c.P[1], c.P[2]
-		return func(in []C) []C { return o1(a.Compute(in[0])) }, a.IdlePeriod()
+		return altInst{func(c Config) {
+			a.ErPeriod, a.FastScPeriod, a.SlowScPeriod = c.P[0], c.P[1], c.P[2]
+		}, func(in []C) []C { return o1(a.Compute(in[0])) }, a.IdlePeriod}
 	},
-	"Macd": func(c Config) (func([]C) []C, int) {
+	"Macd": func() altInst {
 		a := trend.NewMacd[float64]()
-		a.Ema1.Period, a.Ema2.Period, a.Ema3.Period = c.P[0], c.P[1], c.P[2]
-		return func(in []C) []C { return o2(a.Compute(in[0])) }, a.IdlePeriod()
+		return altInst{func(c Config) {
+			a.Ema1.Period, a.Ema2.Period, a.Ema3.Period = c.P[0], c.P[1], c.P[2]
+		}, func(in []C) []C { return o2(a.Compute(in[0])) }, a.IdlePeriod}
 	},
-	"Mls": func(c Config) (func([]C) []C, int) {
+	"Mls": func() altInst {
 		a := trend.NewMlsWithPeriod[float64](7)
-		a.Sum.Period = c.P[0]
-		return func(in []C) []C { return o2(a.Compute(in[0], in[1])) }, a.IdlePeriod()
+		return altInst{func(c Config) {
+			a.Sum.Period = c.P[0]
+		}, func(in []C) []C { return o2(a.Compute(in[0], in[1])) }, a.IdlePeriod}
 	},
-	"Mlr": func(c Config) (func([]C) []C, int) {
+	"Mlr": func() altInst {
 		a := trend.NewMlrWithPeriod[float64](7)
-		a.Mls.Sum.Period = c.P[0]
-		return func(in []C) []C { return o1(a.Compute(in[0], in[1])) }, a.IdlePeriod()
+		return altInst{func(c Config) {
+			a.Mls.Sum.Period = c.P[0]
+		}, func(in []C) []C { return o1(a.Compute(in[0], in[1])) }, a.IdlePeriod}
 	},
-	"MovingMax": func(c Config) (func([]C) []C, int) {
+	"MovingMax": func() altInst {
 		a := trend.NewMovingMax[float64]()
-		a.Period = c.P[0]
-		return func(in []C) []C { return o1(a.Compute(in[0])) }, a.IdlePeriod()
+		return altInst{func(c Config) {
+			a.Period = c.P[0]
+		}, func(in []C) []C { return o1(a.Compute(in[0])) }, a.IdlePeriod}
 	},
-	"MovingMin": func(c Config) (func([]C) []C, int) {
+	"MovingMin": func() altInst {
 		a := trend.NewMovingMin[float64]()
-		a.Period = c.P[0]
-		return func(in []C) []C { return o1(a.Compute(in[0])) }, a.IdlePeriod()
+		return altInst{func(c Config) {
+			a.Period = c.P[0]
+		}, func(in []C) []C { return o1(a.Compute(in[0])) }, a.IdlePeriod}
 	},
-	"MovingSum": func(c Config) (func([]C) []C, int) {
+	"MovingSum": func() altInst {
 		a := trend.NewMovingSum[float64]()
-		a.Period = c.P[0]
-		return func(in []C) []C { return o1(a.Compute(in[0])) }, a.IdlePeriod()
+		return altInst{func(c Config) {
+			a.Period = c.P[0]
+		}, func(in []C) []C { return o1(a.Compute(in[0])) }, a.IdlePeriod}
 	},
-	"Rma": func(c Config) (func([]C) []C, int) {
+	"Rma": func() altInst {
 		a := trend.NewRma[float64]()
-		a.Period = c.P[0]
-		return func(in []C) []C { return o1(a.Compute(in[0])) }, a.IdlePeriod()
+		return altInst{func(c Config) {
+			a.Period = c.P[0]
+		}, func(in []C) []C { return o1(a.Compute(in[0])) }, a.IdlePeriod}
 	},
-	"Sma": func(c Config) (func([]C) []C, int) {
+	"Sma": func() altInst {
 		a := trend.NewSma[float64]()
-		a.Period = c.P[0]
-		return func(in []C) []C { return o1(a.Compute(in[0])) }, a.IdlePeriod()
+		return altInst{func(c Config) {
+			a.Period = c.P[0]
+		}, func(in []C) []C { return o1(a.Compute(in[0])) }, a.IdlePeriod}
 	},
-	"Smma": func(c Config) (func([]C) []C, int) {
+	"Smma": func() altInst {
 		a := trend.NewSmma[float64]()
-		a.Period = c.P[0]
-		return func(in []C) []C { return o1(a.Compute(in[0])) }, a.IdlePeriod()
+		return altInst{func(c Config) {
+			a.Period = c.P[0]
+		}, func(in []C) []C { return o1(a.Compute(in[0])) }, a.IdlePeriod}
 	},
-	"Tsi": func(c Config) (func([]C) []C, int) {
+	"Tsi": func() altInst {
 		a := trend.NewTsi[float64]()
-		a.FirstSmoothing.(*trend.Ema[float64]).Period = c.P[0]
-		a.SecondSmoothing.(*trend.Ema[float64]).Period = c.P[1]
-		return func(in []C) []C { return o1(a.Compute(in[0])) }, a.IdlePeriod()
+		return altInst{func(c Config) {
+			a.FirstSmoothing.(*trend.Ema[float64]).Period = c.P[0]
+			a.SecondSmoothing.(*trend.Ema[float64]).Period = c.P[1]
+		}, func(in []C) []C { return o1(a.Compute(in[0])) }, a.IdlePeriod}
 	},
-	"Wma": func(c Config) (func([]C) []C, int) {
+	"Wma": func() altInst {
 		a := trend.NewWmaWith[float64](3)
-		a.Period = c.P[0]
-		return func(in []C) []C { return o1(a.Compute(in[0])) }, a.IdlePeriod()
+		return altInst{func(c Config) {
+			a.Period = c.P[0]
+		}, func(in []C) []C { return o1(a.Compute(in[0])) }, a.IdlePeriod}
 	},
-	"Rsi": func(c Config) (func([]C) []C, int) {
+	"Rsi": func() altInst {
 		a := momentum.NewRsi[float64]()
-		a.Rma.Period = c.P[0]
-		return func(in []C) []C { return o1(a.Compute(in[0])) }, a.IdlePeriod()
+		return altInst{func(c Config) {
+			a.Rma.Period = c.P[0]
+		}, func(in []C) []C { return o1(a.Compute(in[0])) }, a.IdlePeriod}
 	},
-	"Atr": func(c Config) (func([]C) []C, int) {
+	"Atr": func() altInst {
 		a := volatility.NewAtr[float64]()
-		a.Ma.(*trend.Sma[float64]).Period = c.P[0]
-		return func(in []C) []C { return o1(a.Compute(in[0], in[1], in[2])) }, a.IdlePeriod()
+		return altInst{func(c Config) {
+			a.Ma.(*trend.Sma[float64]).Period = c.P[0]
+		}, func(in []C) []C { return o1(a.Compute(in[0], in[1], in[2])) }, a.IdlePeriod}
 	},
-	"BollingerBands": func(c Config) (func([]C) []C, int) {
+	"BollingerBands": func() altInst {
 		a := volatility.NewBollingerBands[float64]()
-		a.Period = c.P[0]
-		return func(in []C) []C { return o3(a.Compute(in[0])) }, a.IdlePeriod()
+		return altInst{func(c Config) {
+			a.Period = c.P[0]
+		}, func(in []C) []C { return o3(a.Compute(in[0])) }, a.IdlePeriod}
 	},
-	"DonchianChannel": func(c Config) (func([]C) []C, int) {
+	"DonchianChannel": func() altInst {
 		a := volatility.NewDonchianChannel[float64]()
-		a.Max.Period, a.Min.Period = c.P[0], c.P[0]
-		return func(in []C) []C { return o3(a.Compute(in[0])) }, a.IdlePeriod()
+		return altInst{func(c Config) {
+			a.Max.Period, a.Min.Period = c.P[0], c.P[0]
+		}, func(in []C) []C { return o3(a.Compute(in[0])) }, a.IdlePeriod}
 	},
-	"MovingStd": func(c Config) (func([]C) []C, int) {
+	"MovingStd": func() altInst {
 		a := volatility.NewMovingStd[float64]()
-		a.Period = c.P[0]
-		return func(in []C) []C { return o1(a.Compute(in[0])) }, a.IdlePeriod()
+		return altInst{func(c Config) {
+			a.Period = c.P[0]
+		}, func(in []C) []C { return o1(a.Compute(in[0])) }, a.IdlePeriod}
 	},
-	"PercentB": func(c Config) (func([]C) []C, int) {
+	"PercentB": func() altInst {
 		a := volatility.NewPercentB[float64]()
-		a.BollingerBands.Period = c.P[0]
-		return func(in []C) []C { return o1(a.Compute(in[0])) }, a.IdlePeriod()
+		return altInst{func(c Config) {
+			a.BollingerBands.Period = c.P[0]
+		}, func(in []C) []C { return o1(a.Compute(in[0])) }, a.IdlePeriod}
 	},
-	"Cmf": func(c Config) (func([]C) []C, int) {
+	"Cmf": func() altInst {
 		a := volume.NewCmf[float64]()
-		a.Sum.Period = c.P[0]
-		return func(in []C) []C { return o1(a.Compute(in[0], in[1], in[2], in[3])) }, a.IdlePeriod()
+		return altInst{func(c Config) {
+			a.Sum.Period = c.P[0]
+		}, func(in []C) []C { return o1(a.Compute(in[0], in[1], in[2], in[3])) }, a.IdlePeriod}
 	},
-	"Emv": func(c Config) (func([]C) []C, int) {
+	"Emv": func() altInst {
 		a := volume.NewEmv[float64]()
-		a.Sma.Period = c.P[0]
-		return func(in []C) []C { return o1(a.Compute(in[0], in[1], in[2])) }, a.IdlePeriod()
+		return altInst{func(c Config) {
+			a.Sma.Period = c.P[0]
+		}, func(in []C) []C { return o1(a.Compute(in[0], in[1], in[2])) }, a.IdlePeriod}
 	},
-	"Fi": func(c Config) (func([]C) []C, int) {
+	"Fi": func() altInst {
 		a := volume.NewFi[float64]()
-		a.Ema.Period = c.P[0]
-		return func(in []C) []C { return o1(a.Compute(in[0], in[1])) }, a.IdlePeriod()
+		return altInst{func(c Config) {
+			a.Ema.Period = c.P[0]
+		}, func(in []C) []C { return o1(a.Compute(in[0], in[1])) }, a.IdlePeriod}
 	},
-	"Vwap": func(c Config) (func([]C) []C, int) {
+	"Vwap": func() altInst {
 		a := volume.NewVwap[float64]()
-		a.Sum.Period = c.P[0]
-		return func(in []C) []C { return o1(a.Compute(in[0], in[1])) }, a.IdlePeriod()
+		return altInst{func(c Config) {
+			a.Sum.Period = c.P[0]
+		}, func(in []C) []C { return o1(a.Compute(in[0], in[1])) }, a.IdlePeriod}
 	},
 }
